@@ -3,8 +3,17 @@ import math
 from fractions import Fraction
 
 
+class NZ(int):
+    """an integer zero that is written as negative zero (`-0:0`): equal to 0 in every comparison and in all
+    arithmetic of the generators and oracles, but the real code receives -0.0"""
+    def __new__(cls):
+        return super().__new__(cls, 0)
+
+
 def enc(x):
     """float or int or Fraction (dyadic) -> 'm:e'"""
+    if isinstance(x, NZ):
+        return "-0:0"
     if isinstance(x, float):
         if x == 0.0:
             return "-0:0" if math.copysign(1.0, x) < 0 else "0:0"   # the sign of zero travels to the real code
